@@ -55,9 +55,7 @@ def pval(v) -> str:
     """Python/numpy value -> Coq term of type pval."""
     if v is None:
         return "VNone"
-    if isinstance(v, (bool, np.bool_)) and not isinstance(v, np.ndarray):
-        if isinstance(v, np.bool_):
-            return f'(VNp "bool" {cz(int(v))} None)'
+    if isinstance(v, bool):
         return f"(VBool {cbool(v)})"
     if isinstance(v, np.generic):  # numpy scalar (np.str_/np.bytes_ are str/bytes too)
         if isinstance(v, np.str_):
